@@ -47,7 +47,7 @@ func c05Decl(r *Rng) *DeclSpec {
 	xr := r.Fork("extra")
 	d.eachGroupSpec(func(g *GroupSpec, cp []string, own bool) {
 		if !own && g != d.Root && xr.Chance(1, 3) {
-			g.EnvNamespace = xr.Pick([]string{"APP", "NS", "X", "DEEP"})
+			g.EnvNamespace = xr.Pick([]string{"APP", "NS", "X", "DEEP", "APP_", "NS.", "X-", "_"})
 		}
 		for _, o := range g.Opts {
 			if o.Optional && (isSliceKind(o.Kind) || isMapKind(o.Kind) || strings.HasPrefix(o.Kind, "*[]")) {
@@ -79,7 +79,7 @@ func c05Decl(r *Rng) *DeclSpec {
 			if o.Env == "" && !isFuncKind(o.Kind) && xr.Chance(1, 3) {
 				o.Env = "E_X_" + strings.ToUpper(o.Field)
 				if (isSliceKind(o.Kind) || isMapKind(o.Kind)) && xr.Chance(2, 3) {
-					o.EnvDelim = xr.Pick([]string{",", ";"})
+					o.EnvDelim = xr.Pick([]string{",", ";", "->", "::"})
 				}
 			}
 		}
@@ -148,6 +148,22 @@ func envTextFor(r *Rng, o *OptSpec) string {
 		for i := 0; i < n; i++ {
 			parts = append(parts, one())
 		}
+		if (k == "[]string" || k == "ulist" || k == "string") && len(o.Choices) == 0 && r.Chance(1, 6) {
+			// a list text that begins or ends with the delimiter has an empty element there
+			switch r.Intn(3) {
+			case 0:
+				parts = append([]string{""}, parts...)
+			case 1:
+				parts = append(parts, "")
+			default:
+				parts = append(append([]string{""}, parts...), "")
+			}
+		}
+		if (k == "[]string" || k == "ulist") && len(o.EnvDelim) > 1 && r.Chance(1, 4) {
+			// elements made of the delimiter's own characters
+			parts = append(parts, o.EnvDelim[:1]+"x"+o.EnvDelim[1:])
+			parts[0] = o.EnvDelim[1:] + parts[0]
+		}
 		return strings.Join(parts, o.EnvDelim)
 	}
 	return one()
@@ -158,7 +174,7 @@ func (propC05) Gen(r *Rng, idx int, tier string) *Scenario {
 	sc.Decl = c05Decl(r)
 	sc.World = WorldSpec{Cols: 80, Now: 1700000000, Env: map[string]BStr{}}
 	p := sc.C05
-	p.Shape = r.Fork("shape").Pick([]string{"ini-parse", "defini-parse", "parse-defini", "parse", "defini-parse", "parse-defini", "parse-parse", "ini-failparse-parse", "ini-parse-defini", "failini-parse", "parse-delim-parse"})
+	p.Shape = r.Fork("shape").Pick([]string{"ini-parse", "defini-parse", "parse-defini", "parse", "defini-parse", "parse-defini", "parse-parse", "ini-failparse-parse", "ini-parse-defini", "failini-parse", "parse-delim-parse", "parse-parse-defini"})
 	p.Plan = genPlan(r.Fork("plan"), sc.Decl)
 	ois := optInfos(sc.Decl)
 	if br := r.Fork("badcli"); br.Chance(1, 12) {
@@ -250,7 +266,11 @@ func (propC05) Gen(r *Rng, idx int, tier string) *Scenario {
 					// a value longer than any read buffer, and not a repetition of one
 					// character (a reader that mixes up its buffers would go unnoticed)
 					pat := sr.Pick([]string{"abcdefghij", "0123456789", "xy z"})
-					val = "L" + strings.Repeat(pat, sr.Range(4100, 9000)/len(pat)) + "E"
+					n := sr.Range(4100, 9000)
+					if sr.Chance(1, 5) {
+						n = sr.Range(65600, 70000) // beyond the token limit of a bufio.Scanner
+					}
+					val = "L" + strings.Repeat(pat, n/len(pat)) + "E"
 				}
 				p.Ini = append(p.Ini, C05Ini{Opt: oi.Path, Section: oi.Section, Key: key, Val: val})
 			}
@@ -499,6 +519,14 @@ func (propC05) Judge(sc *Scenario) *Verdict {
 		s2.Ops = append(s2.Ops, p.EnvMid...)
 		parseIdx = len(s2.Ops)
 		s2.Ops = append(s2.Ops, parseOp)
+	case "parse-parse-defini":
+		// a reused parser (first ParseArgs with an empty command line), then the judged
+		// ParseArgs, then the INI text read as defaults: the command line keeps its rank
+		s2.Ops = append(s2.Ops, Op{Kind: "parse"})
+		s2.Ops = append(s2.Ops, p.EnvMid...)
+		parseIdx = len(s2.Ops)
+		s2.Ops = append(s2.Ops, parseOp)
+		s2.Ops = append(s2.Ops, iniOp)
 	case "parse-parse":
 		// a reused parser: a first ParseArgs with an empty command line (so every
 		// option is defaulted, none explicitly set), the environment changes, then
@@ -552,7 +580,7 @@ func (propC05) Judge(sc *Scenario) *Verdict {
 		}
 	}
 	firstParseBad := ""
-	if p.Shape == "parse-parse" || p.Shape == "parse-delim-parse" {
+	if p.Shape == "parse-parse" || p.Shape == "parse-delim-parse" || p.Shape == "parse-parse-defini" {
 		// what the first ParseArgs (empty command line, environment Env0) leaves in the fields
 		env1 := map[string]string{}
 		for k, val := range p.Env0 {
@@ -625,7 +653,7 @@ func (propC05) Judge(sc *Scenario) *Verdict {
 		}
 	}
 	firstRejected := false
-	if p.Shape == "parse-parse" || p.Shape == "parse-delim-parse" {
+	if p.Shape == "parse-parse" || p.Shape == "parse-delim-parse" || p.Shape == "parse-parse-defini" {
 		for i := 0; i < parseIdx; i++ {
 			if o.Ops[i].Op == "parse" && o.Ops[i].Err != "" {
 				firstRejected = true
@@ -651,7 +679,7 @@ func (propC05) Judge(sc *Scenario) *Verdict {
 	for _, oi := range ois {
 		src := c05Model(oi, d, cli, ini, env)
 		k := oi.O.Kind
-		if p.Shape == "parse-defini" && src.name == "ini" {
+		if (p.Shape == "parse-defini" || p.Shape == "parse-parse-defini") && src.name == "ini" {
 			// ParseArgs runs before the INI is read: at that moment the env/default
 			// text is the winning source and must convert
 			early := c05Model(oi, d, cli, nil, env)
@@ -859,7 +887,7 @@ func (propC05) Judge(sc *Scenario) *Verdict {
 			for _, s := range present {
 				has[s] = true
 			}
-			if p.Shape == "parse-parse" || p.Shape == "parse-delim-parse" || p.Shape == "ini-parse-defini" || p.Shape == "failini-parse" {
+			if p.Shape == "parse-parse" || p.Shape == "parse-delim-parse" || p.Shape == "ini-parse-defini" || p.Shape == "failini-parse" || p.Shape == "parse-parse-defini" {
 				continue // an earlier operation already ran the callbacks for its sources
 			}
 			if has["cli"] && has["ini"] {
